@@ -2117,19 +2117,25 @@ Qed.
 (* ====================================================================================== *)
 (* 6. BIPARTITE from_hamiltonian is exact for pairwise distinct operator strings            *)
 (* ====================================================================================== *)
+Lemma distinct_live : forall t H, distinct_strings t H -> distinct_strings t (live_terms H).
+Proof. intros t H HD. unfold distinct_strings, live_terms. apply PTN.Bip.ModelProofs.NoDup_map_filter. exact HD. Qed.
+
 Theorem bipartite_exact : forall t H d, NoDup (ids t) -> distinct_strings t H ->
   from_hamiltonian_bipartite t H = Some d -> peq (sd_denote t d) (ham_denote t H).
 Proof.
   intros t H d ND HD E. unfold from_hamiltonian_bipartite, from_hamiltonian_bipartite_st in E.
-  destruct H as [|tm H]; [discriminate|].
-  destruct (run_levels t (levels t) (pipe_init t (tm :: H))) as [st'|] eqn:R; [|discriminate].
-  cbn [option_map] in E. inversion E; subst d.
-  eapply peq_trans; [|unfold pipe_init; cbn [p_sd]; apply base_exact_peq; exact ND].
-  change (sd_base t (tm :: H)) with (p_sd (pipe_init t (tm :: H))).
-  apply (run_inv t ND (size t) [t] (pipe_init t (tm :: H)) st').
-  - cbn [flat_map]. rewrite app_nil_r. exact ND.
-  - intros tp [Etp|[]]. subst. apply sub_here.
-  - apply init_GI. exact ND.
-  - apply init_FI; auto.
-  - cbn [flat_map]. rewrite app_nil_r. exact R.
+  destruct (live_terms H) as [|tm H'] eqn:EL.
+  - destruct H as [|tm0 H0]; [discriminate|]. cbn [option_map] in E. inversion E; subst d.
+    unfold pipe_init. cbn [p_sd]. apply base_exact_peq. exact ND.
+  - destruct (run_levels t (levels t) (pipe_init t (tm :: H'))) as [st'|] eqn:R; [|discriminate].
+    cbn [option_map] in E. inversion E; subst d.
+    eapply peq_trans; [|apply (ham_denote_live t H)]. rewrite EL.
+    eapply peq_trans; [|unfold pipe_init; cbn [p_sd]; apply base_exact_peq; exact ND].
+    change (sd_base t (tm :: H')) with (p_sd (pipe_init t (tm :: H'))).
+    apply (run_inv t ND (size t) [t] (pipe_init t (tm :: H')) st').
+    + cbn [flat_map]. rewrite app_nil_r. exact ND.
+    + intros tp [Etp|[]]. subst. apply sub_here.
+    + apply init_GI. exact ND.
+    + apply init_FI; auto. rewrite <- EL. apply distinct_live. exact HD.
+    + cbn [flat_map]. rewrite app_nil_r. exact R.
 Qed.
